@@ -40,6 +40,8 @@ def handle : List Sexp → Option String
   | .atom "KTIME" :: .atom mn :: .atom mx :: args => do
       let a ← intArgs args
       some (out (GenK.timeCanon (← mx.toInt?) (← mn.toInt?) a))
+  | [.atom "KREAL", .atom ms, .atom m, .atom eb, .atom e] => do
+      some (out (GenK.realBin (← ms.toInt?) (← m.toInt?) (← eb.toInt?) (← e.toInt?)))
   | .atom "KOIDDEC" :: args => do
       let a ← intArgs args
       some (out (GenK.oidDecode a))
